@@ -769,6 +769,14 @@ fn c10() -> Property {
                 cases_per_seed: 1,
             note: "real listener-side Receiver(s) <-> scripted sender that fragments deliveries",
             },
+            Variant {
+                name: "stream-with-undecodable-deliveries",
+                weight: 1,
+                make: || Box::pin(scen::c09::run_client_stream_only()),
+                max_steps: 3_000_000,
+                cases_per_seed: 1,
+                note: "C09's scripted credit-respecting sender streaming single- and multi-frame deliveries, every second to sixth of which does not decode (recv fails with the recoverable decode error and the application rejects the delivery): what a delivery that fails at its last frame leaves behind must not depend on the number of frames it came in - every other delivery comes out, once, in order",
+            },
         ],
         quick_runs: 10_000,
         thorough_runs: 500_000,
@@ -942,6 +950,14 @@ fn c01() -> Property {
                 max_steps: 3_000_000,
                 cases_per_seed: 1,
                 note: "scripted credit-respecting sender -> real receiver (automatic credit): single- and multi-frame deliveries, every second to sixth one undecodable (rejected by the application, which goes on): all of them come out, once, in order",
+            },
+            Variant {
+                name: "scripted-fragmenting-sender",
+                weight: 1,
+                make: || Box::pin(scen::c10::run_client()),
+                max_steps: 3_000_000,
+                cases_per_seed: 1,
+                note: "C10's scripted sender (deliveries in 1-7 frames at seeded offsets, a second link interleaved, deliveries aborted at seeded positions and followed by complete ones) against a real client receiver: every complete delivery comes out once, unchanged, in order; an aborted one never",
             },
         ],
         quick_runs: 6000,
